@@ -191,27 +191,32 @@ def gen_ops(ck):
 
 
 def run_impl(ck, ops, trunc):
-    """shard over processes"""
+    """shard over processes; in/out through files (a pipe that nobody drains would block a chatty child)"""
     nsh = min(8, max(1, len(ops)))
     shards = [{"ops": ops[i::nsh], "truncate": trunc if i == 0 else []} for i in range(nsh)]
     procs = []
-    for sh in shards:
-        p = subprocess.Popen([PY, os.path.join(VERIF, "impl", "c08_impl.py")], stdin=subprocess.PIPE, stdout=subprocess.PIPE,
-                             stderr=subprocess.PIPE, text=True, env=impl_env(), cwd=ck.build)
-        p.stdin.write(json.dumps(sh))
-        p.stdin.close()
-        procs.append(p)
+    for i, sh in enumerate(shards):
+        fin = os.path.join(ck.build, "impl_in_%d.json" % i)
+        with open(fin, "w") as f:
+            json.dump(sh, f)
+        fo = open(os.path.join(ck.build, "impl_out_%d.txt" % i), "w")
+        fe = open(os.path.join(ck.build, "impl_err_%d.txt" % i), "w")
+        p = subprocess.Popen([PY, os.path.join(VERIF, "impl", "c08_impl.py")], stdin=open(fin), stdout=fo, stderr=fe,
+                             text=True, env=impl_env(), cwd=ck.build)
+        procs.append((p, fo, fe))
     out = {"ops": [], "truncate": []}
-    for p in procs:
+    for p, fo, fe in procs:
         try:
-            so = p.stdout.read()
             p.wait(timeout=ck.n(300, 1500))
         except subprocess.TimeoutExpired:
-            p.kill()
+            for q, _, _ in procs:
+                q.kill()
             raise RuntimeError("c08_impl timed out")
-        lines = [l for l in so.splitlines() if l.strip()]
+        fo.close()
+        fe.close()
+        lines = [l for l in open(fo.name).read().splitlines() if l.strip()]
         if p.returncode != 0 or not lines:
-            raise RuntimeError("c08_impl failed: " + p.stderr.read()[-2000:])
+            raise RuntimeError("c08_impl failed: " + open(fe.name).read()[-2000:])
         d = json.loads(lines[-1])
         out["ops"] += d["ops"]
         out["truncate"] += d["truncate"]
